@@ -70,7 +70,7 @@ def run_tlc(module, cfg, wd, env=None, workers=8, timeout=1200, heap="6g", const
     cfgname = module + ".run.cfg"
     open(os.path.join(wd, cfgname), "w").write(cfg_text)
     e = dict(os.environ)
-    jopts = "-Xss1g -Xmx%s" % heap
+    jopts = "-Xss1g -Xmx%s -Dfile.encoding=UTF-8 -Dsun.stdout.encoding=UTF-8 -Dstdout.encoding=UTF-8" % heap
     if dfs:
         jopts += " -Dtlc2.tool.queue.IStateQueue=StateDeque"
     e["JAVA_TOOL_OPTIONS"] = jopts
